@@ -1031,6 +1031,9 @@ class Config:  # pylint: disable=too-many-instance-attributes
         :param key: field key
         :param value: field default value
         """
+        if isinstance(value, Config) and not value._key:
+            # the schema wrapped by a config type has no key of its own: the key is the field's
+            value._key = key
         self._data[key] = value
         self._default_value_keys.add(key)
 
